@@ -836,8 +836,8 @@ def t_lambertw():
 
 def hp_cells():
     return {
-        'ellipk': [HP(RG('hp/m-in-(0,1)', A(m_01))), HP(RG('hp/m-near-1-below', A(below1(6, 300))))],
-        'ellipe': [HP(RG('hp/m-in-(0,1)', A(m_01))), HP(RG('hp/m-near-1-below', A(below1(6, 300))))],
+        'ellipk': [HP(RG('hp/m-in-(0,1)', A(m_01))), HP(RG('hp/m-near-1-below', A(below1(6, 300)), relation=ellipk_rel))],
+        'ellipe': [HP(RG('hp/m-in-(0,1)', A(m_01), relation=ellipe_rel)), HP(RG('hp/m-near-1-below', A(below1(6, 300)), relation=ellipe_rel))],
         'ellipf': [HP(RG('hp/|phi|<=pi/2,m-in-(0,1)', A(phi_in, m_01)))],
         'agm': [HP(RG('hp/positive', A(pos, pos))), HP(RG('hp/complex', A(cplx_any, cplx_any)))],
         'elliprf': [HP(RG('hp/positive', A(pos, pos, pos)))],
